@@ -239,11 +239,23 @@ def _lark_init_vs_load(ctx: Ctx, res: RuleResult, post, post_funcs):
         if isinstance(n, ast.Dict) and isinstance(parent(n), ast.Call) and 'dump' in norm(parent(n).func):
             keys_w = {const_str(x) for x in n.keys}
     keys_r = set()
-    dname = None
+    # the local(s) holding the container: the data parameter and anything assigned from it / from pickle.load(it)
+    fparam = load.positional_names()[0] if load.positional_names() else 'f'
+    holders = {fparam}
+    for n in load.body_nodes():
+        if isinstance(n, ast.Assign) and len(n.targets) == 1 and isinstance(n.targets[0], ast.Name):
+            v = n.value
+            if (isinstance(v, ast.Name) and v.id in holders) or (isinstance(v, ast.Call) and norm(v.func) == 'pickle.load'
+                                                                 and v.args and norm(v.args[0]) in holders):
+                holders.add(n.targets[0].id)
+    data_holders = set()
     for n in load.body_nodes():
         if isinstance(n, ast.Subscript) and isinstance(n.value, ast.Name) and const_str(n.slice) is not None \
-                and n.value.id in ('d', 'f'):
+                and n.value.id in holders:
             keys_r.add(const_str(n.slice))
+            st_ = parent(n)
+            if isinstance(st_, ast.Assign) and len(st_.targets) == 1 and isinstance(st_.targets[0], ast.Name) and const_str(n.slice) == 'data':
+                data_holders.add(st_.targets[0].id)
     ok = bool(keys_w) and keys_w == keys_r
     res.ob(site, 'save() writes container keys %s and _load() reads %s' % (sorted(keys_w), sorted(keys_r)), ok)
     if not ok:
@@ -257,7 +269,7 @@ def _lark_init_vs_load(ctx: Ctx, res: RuleResult, post, post_funcs):
         if f.module.name not in ('lark.lark', 'lark.parser_frontends'):
             continue
         for n in f.body_nodes():
-            if isinstance(n, ast.Subscript) and isinstance(n.value, ast.Name) and n.value.id == 'data' \
+            if isinstance(n, ast.Subscript) and isinstance(n.value, ast.Name) and n.value.id in data_holders \
                     and const_str(n.slice) is not None and f.qual == load.qual:
                 data_keys.add(const_str(n.slice))
     ok = fields <= data_keys | {'grammar'} and data_keys - {'grammar'} <= fields
@@ -284,8 +296,9 @@ def _codec(ctx: Ctx, res: RuleResult):
         raise AnalysisError('ParseTableBase.serialize/deserialize not found (anchor vanished)')
     site = '%s %s' % (dec.loc(), dec.qual)
     wk = _dict_keys_returned(enc)
+    dparam = dec.positional_names()[0] if dec.positional_names() else 'data'
     rk = {const_str(n.slice) for n in dec.body_nodes() if isinstance(n, ast.Subscript) and isinstance(n.value, ast.Name)
-          and n.value.id == 'data' and const_str(n.slice) is not None}
+          and n.value.id == dparam and const_str(n.slice) is not None}
     ok = wk == rk and len(wk) >= 4
     res.ob(site, 'encoder writes keys %s, decoder reads %s' % (sorted(wk), sorted(rk)), ok)
     if not ok:
@@ -344,13 +357,18 @@ def _codec(ctx: Ctx, res: RuleResult):
             elif isinstance(a, ast.Subscript):
                 ok = ok and const_str(a.slice) == p
             elif isinstance(a, ast.Name):
-                ok = ok and a.id == p
+                # a local: its definition must be built from data[p]
+                defs_ = [x.value for x in dec.body_nodes() if isinstance(x, ast.Assign)
+                         and any(isinstance(t, ast.Name) and t.id == a.id for t in x.targets)]
+                ok = ok and bool(defs_) and all(any(isinstance(y, ast.Subscript) and const_str(y.slice) == p for y in ast.walk(d)) for d in defs_)
     res.ob(site, 'decoder passes states/start_states/end_states to the constructor under their own names', ok)
     if not ok:
         res.finding(dec, dec.node, 'decoder does not pass the decoded parts to ParseTableBase(%s) consistently' % names, construct='ctor-args')
     # token enumeration: encoder maps name -> index and stores the reverse; decoder indexes it
+    tok_locals = {x.targets[0].id for x in dec.body_nodes() if isinstance(x, ast.Assign) and len(x.targets) == 1
+                  and isinstance(x.targets[0], ast.Name) and isinstance(x.value, ast.Subscript) and const_str(x.value.slice) == 'tokens'}
     ok = any(isinstance(n, ast.Call) and norm(n.func).endswith('.reversed') for n in enc.body_nodes()) and \
-        any(isinstance(n, ast.Subscript) and norm(n.value) == 'tokens' for n in dec.body_nodes())
+        any(isinstance(n, ast.Subscript) and isinstance(n.value, ast.Name) and n.value.id in tok_locals for n in dec.body_nodes())
     res.ob(site, 'token names are enumerated by the encoder (reverse map stored) and looked up by the decoder', ok)
     if not ok:
         res.finding(dec, dec.node, 'token enumeration of the encoder is not inverted by the decoder', construct='token-enum')
@@ -595,8 +613,9 @@ def run_load_reapply(ctx: Ctx) -> RuleResult:
     if not refuses:
         res.finding(load, load.node, '_load no longer refuses options that change how the grammar is compiled', construct='refuse')
     # caller's kwargs override the stored options
-    upd = any(isinstance(n, ast.Call) and norm(n.func) == 'options.update' and n.args and norm(n.args[0]) == 'kwargs'
-              for n in load.body_nodes())
+    kw = load.node.args.kwarg.arg if load.node.args.kwarg else 'kwargs'
+    upd = any(isinstance(n, ast.Call) and isinstance(n.func, ast.Attribute) and n.func.attr == 'update' and isinstance(n.func.value, ast.Name)
+              and n.args and norm(n.args[0]) == kw for n in load.body_nodes())
     res.ob(load.loc(), 'options passed at load time override the stored ones', upd)
     if not upd:
         res.finding(load, load.node, 'options given at load time are not merged over the stored options', construct='merge')
